@@ -124,6 +124,40 @@ CATALOG = [
     ("seed-C19_m4", "seeded", "C19_m4", [("R-REFCOUNT", "release-result-dropped:E")]),
     ("seed-C19_m5", "seeded", "C19_m5", [("R-MIRROR", "BitSequenceRG")]),
     ("seed-C20_m6", "seeded", "C20_m6", [("R-MIRROR", "LogSequence::save<->LogSequence::LogSequence")]),
+    # third round (single-token / boundary mutations)
+    ("seed-C01_m9", "seeded", "C01_m9", [("R-SCANLEN", "SSA::build_index#scan-length")]),
+    ("seed-C02_m7", "seeded", "C02_m7", [("R-SENTINEL", "HashDAC::search#narrow-sentinel")]),
+    ("seed-C03_m8", "seeded", "C03_m8", [("R-VBYTE", "VByte::encode<->VByte::decode")]),
+    ("seed-C04_m7", "seeded", "C04_m7", [("R-BYTEORDER", "expandRuleAndComparePrefixDAC#signed-byte")]),
+    ("seed-C04_m8", "seeded", "C04_m8", [("R-BUCKET", "StringDictionaryPFC::locatePrefix#last-bucket")]),
+    ("seed-C04_m9", "seeded", "C04_m9", [("R-ALPHAGUARD", "SSA::locateP#occ-unchecked")]),
+    ("seed-C05_m9", "seeded", "C05_m9", [("R-SAMPLECOUNT", "sample-count-conversion-loop")]),
+    ("seed-C06_m8", "seeded", "C06_m8", [("R-SELECTRANGE", "HashBdh::load#select-range")]),
+    ("seed-C07_m9", "seeded", "C07_m9", [("R-ZEROFILL", "bit-outside-allocation")]),
+    ("seed-C08_m8", "seeded", "C08_m8", [("R-ZEROFILL", "levels-fill-short-of-saved-extent")]),
+    ("seed-C08_m9", "seeded", "C08_m9", [("R-STATE", "Hash::n")]),
+    ("seed-C09_m7", "seeded", "C09_m7", [("R-INITEXTENT", "data-tail-uninitialised")]),
+    ("seed-C09_m9", "seeded", "C09_m9", [("R-SLOT", "slot-reservation")]),
+    ("seed-C10_m7", "seeded", "C10_m7", [("R-DRAIN", "exit-with-queued-tasks:the-break")]),
+    ("seed-C10_m8", "seeded", "C10_m8", [("R-CV", "WorkerQueue::add_task#update-of")]),
+    ("seed-C10_m9", "seeded", "C10_m9", [("R-CV", "Worker::set_stopped#update-of")]),
+    ("seed-C11_m8", "seeded", "C11_m8", [("R-LOCKSET", "race:")]),
+    ("seed-C11_m9", "seeded", "C11_m9", [("R-WORKERPURE", "BitSequenceRRR::E")]),
+    ("seed-C12_m8", "seeded", "C12_m8", [("R-PROBE", "Hashdh::search#probe")]),
+    ("seed-C12_m9", "seeded", "C12_m9", [("R-BISECT", "locateBoundaryBuckets#right-guard")]),
+    ("seed-C13_m8", "seeded", "C13_m8", [("R-CHUNKINIT", "header-bound-maxlength")]),
+    ("seed-C13_m9", "seeded", "C13_m9", [("R-DEDUP", "SSA::locate#occs-extent")]),
+    ("seed-C14_m7", "seeded", "C14_m7", [("R-PATTERN", "extractStringAndCompareRP#param1-not-restored"), ("R-CMPEND", "extractStringAndCompareRP")]),
+    ("seed-C14_m9", "seeded", "C14_m9", [("R-QUERYPURE", "static-local-cmask"), ("R-PURE-PREFIX", "static-local-cmask")]),
+    ("seed-C15_m7", "seeded", "C15_m7", [("R-METADATA", "StringDictionary::maxLength#accessor")]),
+    ("seed-C15_m9", "seeded", "C15_m9", [("R-NARROW", "StringDictionaryRPDAC::save#narrow-maxlength")]),
+    ("seed-C16_m7", "seeded", "C16_m7", [("R-TAGS", "tag-narrowed")]),
+    ("seed-C16_m8", "seeded", "C16_m8", [("R-STUB", "StringDictionaryFMINDEX::extractSubstr#guard")]),
+    ("seed-C17_m8", "seeded", "C17_m8", [("R-SHIFT", "LogSequence::set_field#shift")]),
+    ("seed-C17_m9", "seeded", "C17_m9", [("R-COUNTERWIDTH", "narrow-counter-maxseq")]),
+    ("seed-C20_m7", "seeded", "C20_m7", [("R-RPZERO", "first-extract-without-purge")]),
+    ("seed-C03_m5", "seeded", "C03_m5", [("R-RESAVE-SCALAR", "StringDictionaryRPFC::load#buckets-overwritten")]),
+    ("seed-C04_m5", "seeded", "C04_m5", [("R-CMPEND", "extractPrefixAndCompareDAC#match-without-end-of-pattern")]),
     # behaviour-preserving refactorings (benign/): the named rules must stay silent on them (each once raised a false alarm)
     ("benign-A_r1", "benign", "A_r1.diff", [("R-EXTENT", None)]),
     ("benign-A_r4", "benign", "A_r4.diff", [("R-TAGS", None)]),
